@@ -542,3 +542,76 @@ def arms(st, cond, siblings=None):
     if isinstance(st.test, ast.UnaryOp) and isinstance(st.test.op, ast.Not) and norm(st.test.operand) == cond:
         return other, then
     return None
+
+
+def straight_env(fnode, stop=(), upto=None, limit=1500):
+    """Closed forms of the locals and `self.<attr>` values of a straight-line function body: {key: expression} where
+    key is a local name or 'self.attr' and the expression mentions only parameters, keys in `stop`, and whatever was
+    not assigned in the body.  Statements with control flow invalidate what they assign.  `upto`: stop before this statement."""
+    env = {}
+    stop = set(stop)
+
+    class Sub(ast.NodeTransformer):
+        def visit_Name(self, n):
+            if isinstance(n.ctx, ast.Load) and n.id in env and n.id not in stop:
+                return clone(env[n.id])
+            return n
+
+        def visit_Attribute(self, n):
+            key = dotted(n)
+            if key and isinstance(n.ctx, ast.Load) and key in env and key not in stop:
+                return clone(env[key])
+            return self.generic_visit(n)
+
+        def visit_Lambda(self, n):
+            return n
+
+    def key_of(t):
+        if isinstance(t, ast.Name):
+            return t.id
+        if isinstance(t, ast.Attribute) and isinstance(t.value, ast.Name) and t.value.id == "self":
+            return "self." + t.attr
+        return None
+
+    def put(key, value):
+        if key is None:
+            return
+        if len(ast.unparse(value)) > limit:
+            env.pop(key, None)
+            stop.add(key)
+        else:
+            env[key] = ast.fix_missing_locations(value)
+
+    for st in fnode.body:
+        if st is upto:
+            break
+        if isinstance(st, ast.Assign):
+            v = Sub().visit(clone(st.value))
+            for t in st.targets:
+                if isinstance(t, (ast.Tuple, ast.List)) and not any(isinstance(e, ast.Starred) for e in t.elts):
+                    for i, e in enumerate(t.elts):
+                        if isinstance(v, (ast.Tuple, ast.List)) and len(v.elts) == len(t.elts):
+                            put(key_of(e), clone(v.elts[i]))
+                        else:
+                            put(key_of(e), ast.Subscript(value=clone(v), slice=ast.Constant(value=i), ctx=ast.Load()))
+                elif key_of(t) is not None:
+                    put(key_of(t), clone(v))
+                else:
+                    # store into an element / attribute of something: that object is no longer its closed form
+                    b = t
+                    while isinstance(b, (ast.Subscript, ast.Attribute)) and key_of(b) is None:
+                        b = b.value
+                    k = key_of(b)
+                    if k is not None:
+                        env.pop(k, None)
+        elif isinstance(st, ast.AugAssign) and key_of(st.target) is not None:
+            k = key_of(st.target)
+            cur = clone(env[k]) if k in env else clone(st.target)
+            put(k, ast.BinOp(left=cur, op=st.op, right=Sub().visit(clone(st.value))))
+        elif isinstance(st, (ast.If, ast.For, ast.While, ast.Try, ast.With)):
+            for n in ast.walk(st):
+                if isinstance(n, (ast.Name, ast.Attribute)) and isinstance(getattr(n, "ctx", None), ast.Store):
+                    k = key_of(n)
+                    if k is not None:
+                        env.pop(k, None)
+    return env
